@@ -613,17 +613,21 @@ pub fn nested_run(g: &FnGraph<Node>, kind: usize) -> crate::exec::NestedRun {
     use std::cell::RefCell;
     let n = g.graph.node_count();
     let order: RefCell<Vec<i32>> = RefCell::new(vec![]);
+    // pending for two polls of the nested run: parks its waker, which the loop below wakes
+    // between two polls (a future that wakes itself is polled again within the same poll)
+    let parked: RefCell<Vec<Waker>> = RefCell::new(vec![]);
     struct YieldTwice<'a> {
         left: u8,
         id: i32,
         log: &'a RefCell<Vec<i32>>,
+        parked: &'a RefCell<Vec<Waker>>,
     }
     impl Future for YieldTwice<'_> {
         type Output = ();
         fn poll(mut self: Pin<&mut Self>, cx: &mut Context<'_>) -> Poll<()> {
             if self.left > 0 {
                 self.left -= 1;
-                cx.waker().wake_by_ref();
+                self.parked.borrow_mut().push(cx.waker().clone());
                 Poll::Pending
             } else {
                 self.log.borrow_mut().push(-(self.id + 1));
@@ -681,13 +685,17 @@ pub fn nested_run(g: &FnGraph<Node>, kind: usize) -> crate::exec::NestedRun {
         4 => {
             let fut = g.for_each_concurrent(None, |nd: &Node| {
                 order.borrow_mut().push(nd.id as i32 + 1);
-                YieldTwice { left: 2, id: nd.id as i32, log: &order }
+                YieldTwice { left: 2, id: nd.id as i32, log: &order, parked: &parked }
             });
             let mut fut = std::pin::pin!(fut);
             for _ in 0..3 * horizon {
                 if fut.as_mut().poll(&mut cx).is_ready() {
                     completed = true;
                     break;
+                }
+                let ws: Vec<Waker> = parked.borrow_mut().drain(..).collect();
+                for w in ws {
+                    w.wake();
                 }
             }
         }
